@@ -190,7 +190,7 @@ func checkCase(c Case) (out evid.Outcome) {
 		if !ok {
 			routes = rt.Compiled(c.Regs, m)
 			for i := range routes {
-				if hs := c.Regs[routes[i].Index].H; len(hs) > 0 {
+				if hs := c.Regs[routes[i].Index].H; len(hs) > 0 && !c.Regs[routes[i].Index].HC {
 					routes[i].Headers = map[string]*regexp.Regexp{}
 					for j := 1; j < len(hs); j += 2 {
 						routes[i].Headers[hs[j-1]] = regexp.MustCompile(hs[j])
@@ -345,6 +345,10 @@ func genCase(t *rapid.T) Case {
 	c.EmptyNotFound = rapid.IntRange(0, 5).Draw(t, "enf") == 0
 	// some routes are header-constrained
 	for i := range c.Regs {
+		if rapid.IntRange(0, 7).Draw(t, "cleared") == 0 {
+			// Headers() with no pairs: the route is unconstrained (again)
+			c.Regs[i].HC = true
+		}
 		if rapid.IntRange(0, 3).Draw(t, "constrained") == 0 {
 			c.Regs[i].H = []string{[]string{"X-Api", "x-api", "Accept"}[rapid.IntRange(0, 2).Draw(t, "hn")], []string{"", "^v1$", "[0-9]+"}[rapid.IntRange(0, 2).Draw(t, "he")]}
 		}
